@@ -162,10 +162,14 @@ class Case:
         """an xi:include element placed where the base URI is `base`, designating `target`"""
         attrs = []
         eff = base
+        if xmlbase == "@target":
+            xmlbase = relref(base, target)       # the include's own xml:base names the target itself (C20-F2)
+            self.features.add("include-xmlbase-names-target")
         if xmlbase is not None:
             attrs.append((2, "base", xmlbase))
             eff = resolve(base, xmlbase)
-            self.dirs.add(eff)
+            if xmlbase.endswith("/"):
+                self.dirs.add(eff)
             self.xbvals.add(xmlbase)
             self.features.add("include-with-xmlbase")
         attrs.append((0, "href", relref(eff, target)))
@@ -213,7 +217,10 @@ class Case:
             if not resolve(base, xb).startswith(".."):
                 attrs.append((2, "base", xb))
                 base = resolve(base, xb)
-                self.dirs.add(base)
+                if self.rng.random() < 0.75:
+                    self.dirs.add(base)
+                else:
+                    self.features.add("xmlbase-dir-not-on-disk")      # finding C20-F4
                 self.xbvals.add(xb)
                 self.features.add("elem-xmlbase")
         kids = []
@@ -290,8 +297,8 @@ def gen_case(rng, kind):
             tgt = paths[j]
             xb = None
             if rng.random() < 0.08 and not kind.startswith("cycle"):
-                xb = rng.choice(["a/", "s/", "../"])
-                if resolve(me, xb).startswith(".."):
+                xb = rng.choice(["a/", "s/", "../", "@target"])
+                if xb != "@target" and resolve(me, xb).startswith(".."):
                     xb = None
             gens.append(lambda b, tgt=tgt, xb=xb: c.include(b, tgt, rng.choice([None, None, "xml"]), xmlbase=xb))
         for tp in tpaths:
@@ -415,6 +422,9 @@ def fs_token(c):
         parts.append("%s=D%s" % (p, ser_model(nodes)))
     for p, (s, label, codec, declare) in c.texts.items():
         parts.append("%s=T%s" % (p, cps(s)))
+    for p, b in file_bytes(c).items():
+        if b is None:
+            parts.append("%s=X" % p)
     return "|".join(parts)
 
 
@@ -424,16 +434,13 @@ def file_bytes(c):
         out[p] = ('<?xml version="1.0" encoding="UTF-8"?>\n' + ser_xml(nodes)).encode("utf-8")
     for p, (s, label, codec, declare) in c.texts.items():
         out[p] = s.encode(codec)
-    # finding C20-F4: the code opens "<dir of base>/<href>" without normalising it, so every directory that a
-    # base URI names must exist on disk.  The generated stream creates all of them (also those that only the faulty
-    # base of finding C20-F2 names): closure of the directories under the xml:base vocabulary.
-    ds = set(c.dirs) | {p.rsplit("/", 1)[0] + "/" for p in list(c.docs) + list(c.texts) if "/" in p}
-    for _ in range(4):
-        for d in list(ds):
-            for xb in sorted(c.xbvals):
-                nd = resolve(d, xb)
-                if nd and not nd.startswith(".."):
-                    ds.add(nd)
+    # directories that exist: the parents of every file and every directory that an intended xml:base names
+    # (finding C20-F4: a directory that is only named on the way, "nodir/../x", must exist for the code)
+    ds = set()
+    for d in list(c.dirs) + [p.rsplit("/", 1)[0] + "/" for p in list(c.docs) + list(c.texts) if "/" in p]:
+        segs = [x for x in d.split("/") if x]
+        for i in range(1, len(segs) + 1):
+            ds.add("/".join(segs[:i]) + "/")
     for d in ds:
         if d:
             out[d if d.endswith("/") else d + "/"] = None       # a directory
@@ -494,6 +501,28 @@ def spec_verdict(spec, ans):
     return False, "merged tree differs from the specified expansion"
 
 
+# Defect switches of the model (Model20.v): a letter = the repaired behaviour is on.
+#   b C20-F2 (own xml:base of an included root), n C20-F4 (dir/.. normalised), e C20-F1 (fallback content left alone by
+#   the parser), c C20-F7 (fix-up test uses the base URI at the parent of xi:include)
+# CURRENT = what /repo implements now: b, n, e were repaired by fix: commits; c is a known finding.
+CURRENT = "bne"
+SWITCH_FINDING = {"b": "C20-F2", "n": "C20-F4", "e": "C20-F1", "c": "C20-F7"}
+
+
+def toggles(m):
+    """all non-empty sets of switches to toggle, smallest first ('e' only concerns the parser-driven modes)"""
+    import itertools
+    sw = "bnce" if m in ("x", "l") else "bnc"
+    out = []
+    for n in range(1, len(sw) + 1):
+        out += ["".join(t) for t in itertools.combinations(sw, n)]
+    return out
+
+
+def flags_with(toggle):
+    return "".join(sorted(set(CURRENT) ^ set(toggle)))
+
+
 CASE_KINDS = [("plain", 22), ("text", 10), ("missing", 12), ("clean-missing", 6), ("unusedfb", 6), ("invalid", 10),
               ("rootinc", 6), ("rootbase", 5), ("cycle1", 5), ("cycle2", 5), ("cycle3", 4), ("cycle4", 3),
               ("cycle5", 3), ("mixed", 3)]
@@ -536,8 +565,81 @@ def run(ctx):
     ctx.note("correspondence done in %.1fs" % (time.time() - t0))
 
 
+def literal_witnesses(ctx, xm, xh, work):
+    """witnesses of findings that make the implementation differ from the (repaired) model; each one runs in a process
+    of its own (C20-F3 kills the process).  KNOWN-FINDING is printed only when the witness reproduces."""
+    def one(name, docs, texts, top, modes):
+        c = Case(ctx.rng, "witness")
+        c.docs = docs
+        c.texts = texts
+        c.top = top
+        root = os.path.join(work, name) + "/"
+        files = file_bytes(c)
+        materialise(root, files)
+        tok = fs_token(c)
+        res = []
+        for m in modes:
+            line = "%s %s:%s p %s %s %s" % (name, m, CURRENT, root, top, tok)
+            p = subprocess.run([xh], input=(line + "\n").encode(), stdout=subprocess.PIPE, stderr=subprocess.PIPE,
+                               timeout=300)
+            io = p.stdout.decode("utf-8", "replace").splitlines()
+            _, mo, _ = run_bin(xm, [line])
+            _, so, _ = run_bin(xm, ["%s s p - %s %s" % (name, top, tok)])
+            res.append((m, p.returncode, io[0] if io else None, mo[0], so[0], files, tok))
+            ctx.count()
+        return res
+
+    def pay(m, top, tok, files, extra):
+        d = {"request": "c0 %s p <work>/c0/ %s <fs>" % (m, top), "mode": m, "top": top, "fs": tok, "kind": "witness",
+             "files": {p: (None if b is None else b.hex()) for p, b in files.items()}}
+        d.update(extra)
+        return d
+
+    # C20-F3: xi:include as first child, replaced by nothing (empty fallback), followed by character data
+    docs = {"w/f0.xml": [E(0, "a", [], [E(1, "include", [(0, "href", "nope.xml")], [E(1, "fallback")]), ("T", "text")])]}
+    for m, rc, i, mo, sp, files, tok in one("wF3", docs, {}, "w/f0.xml", ["x", "l", "d"]):
+        if i is None or rc != 0:
+            if ctx.find_known("C20-F3") and m in ("x", "l"):
+                ctx.known_finding("C20-F3", "parser crashes (null fCurrentNode in AbstractDOMParser::docCharacters, process "
+                                  "ended with status %s) on <a><xi:include href='nope.xml'><xi:fallback/></xi:include>text</a>: "
+                                  "endElement sets fCurrentNode = fCurrentParent->getLastChild() = 0 after the include was "
+                                  "removed" % rc)
+            else:
+                ctx.violation("C20-F3", pay(m, "w/f0.xml", tok, files, {"impl": "process ended with status %s" % rc,
+                              "model": mo, "spec": sp, "what": "the parser crashes on an xi:include that is replaced by "
+                              "nothing and is followed by character data"}))
+        elif i != mo:
+            ctx.violation("divergence", pay(m, "w/f0.xml", tok, files, {"impl": i, "model": mo, "spec": sp,
+                          "what": "witness of C20-F3 neither crashes nor gives the specified result"}))
+    # C20-F6: text inclusion whose UTF-8 bytes straddle the 16384-byte read buffer
+    txt = "a" * 16383 + "\u00e9" + "bcd"
+    docs = {"w/f0.xml": [E(0, "a", [], [E(1, "include", [(0, "href", "big.txt"), (0, "parse", "text")], [])])]}
+    for m, rc, i, mo, sp, files, tok in one("wF6", docs, {"w/big.txt": (txt, "UTF-8", "utf-8", False)}, "w/f0.xml",
+                                            ["x", "l", "d"]):
+        if i == mo:
+            continue
+        ia, ma = (split_answer(i) if i else None), split_answer(mo)
+        it = re.search(r" T([0-9A-F.]*)\)", ia[2]) if ia else None
+        mt = re.search(r" T([0-9A-F.]*)\)", ma[2])
+        if it and mt and mt.group(1).startswith(it.group(1)) and len(it.group(1)) < len(mt.group(1)) and ia[0] == []:
+            lost = (len(mt.group(1)) - len(it.group(1))) // 3
+            if ctx.find_known("C20-F6"):
+                ctx.known_finding("C20-F6", "text inclusion silently loses the end of a file when a multi-byte character "
+                                  "straddles the 16384-byte read buffer (doXIncludeTEXTFileDOM transcodes nRead instead of "
+                                  "nOffset+nRead bytes): 16383 x 'a' + U+00E9 + 'bcd' arrives without its last %d "
+                                  "character(s)" % lost)
+            else:
+                ctx.violation("C20-F6", pay(m, "w/f0.xml", tok, files, {"impl": i[:200] + " ... " + i[-200:],
+                              "model": mo[-200:], "spec": sp[-200:], "what": "text inclusion truncated"}))
+        else:
+            ctx.violation("divergence", pay(m, "w/f0.xml", tok, files, {"impl": (i or "")[-400:], "model": mo[-400:],
+                          "spec": sp[-400:], "what": "witness of C20-F6 differs from the model in an unexpected way"}))
+
+
 def _correspond(ctx, xm, xh, work, proof_broken, failed, out):
     rng = ctx.rng
+    if not ctx.replay:
+        literal_witnesses(ctx, xm, xh, work)
     tG = time.time()
     cases = []           # (kind, case-dir, top, fstoken, files, features, relaxed)
     if ctx.replay:
@@ -562,7 +664,7 @@ def _correspond(ctx, xm, xh, work, proof_broken, failed, out):
         materialise(root, files)
         for m in modes:
             src = "pu"[(k + len(m)) % 2] if not ctx.replay else "p"
-            reqs.append((k, m, "c%d %s %s %s %s %s" % (k, m, src, root, top, fstok)))
+            reqs.append((k, m, "c%d %s:%s %s %s %s %s" % (k, m, CURRENT, src, root, top, fstok)))
     lines = [r[2] for r in reqs]
     tA = time.time()
     rc1, impl, err1 = run_bin(xh, lines)
@@ -587,22 +689,19 @@ def _correspond(ctx, xm, xh, work, proof_broken, failed, out):
     # the model with one defect switch flipped (X, DD: repaired xml:base fix-up; d, DD: no eager processing) -- computed
     # on demand, only for the cases that need an attribution
     alt_cache = {}
-    # batch: every case on which the faithful model or the implementation deviates from the Spec
-    need = sorted({k for (k, m, line), i, mo in zip(reqs, impl, model)
+    # the model with switches toggled, for every case on which the model or the implementation deviates from the Spec
+    need = sorted({(k, m) for (k, m, line), i, mo in zip(reqs, impl, model)
                    if i != mo or split_answer(i) is None or not spec_verdict(spec[k], split_answer(i))[0]})
-    tB = time.time()
-    for mode in ("X", "d", "DD"):
-        if need:
-            _, o4, _ = run_bin(xm, ["c%d %s p - %s %s" % (k, mode, cases[k][2], cases[k][3]) for k in need])
-            for k, o in zip(need, o4):
-                alt_cache[(mode, k)] = o
-    ctx.note("model %.1fs, spec+switched models %.1fs (%d cases)" % (tM1 - tM0, time.time() - tM1, len(need)))
+    batch = [(k, m, t) for (k, m) in need for t in toggles(m)]
+    if batch:
+        _, o4, _ = run_bin(xm, ["c%d %s:%s p - %s %s" % (k, "d" if m == "d" else "x", flags_with(t), cases[k][2],
+                                                        cases[k][3]) for k, m, t in batch])
+        for (k, m, t), o in zip(batch, o4):
+            alt_cache[(k, m, t)] = o
+    ctx.note("model %.1fs, spec+switched models %.1fs (%d requests)" % (tM1 - tM0, time.time() - tM1, len(need)))
 
-    def alt(mode, k):
-        if (mode, k) not in alt_cache:
-            _, o4, _ = run_bin(xm, ["c%d %s p - %s %s" % (k, mode, cases[k][2], cases[k][3])])
-            alt_cache[(mode, k)] = o4[0] if o4 else "model-failed"
-        return alt_cache[(mode, k)]
+    def alt(k, m, t):
+        return alt_cache.get((k, m, t), "model-failed")
 
     kinds = {}
     featc = {}
@@ -610,7 +709,7 @@ def _correspond(ctx, xm, xh, work, proof_broken, failed, out):
     relaxed_n = 0
     repaired_n = {}
     verdicts = {"spec-ok": 0, "spec-error": 0}
-    finding_hits = {"C20-F1": [], "C20-F2": [], "C20-F5": []}
+    finding_hits = {"C20-F1": [], "C20-F2": [], "C20-F4": [], "C20-F5": [], "C20-F7": []}
     unexplained_spec = []
     for (k, m, line), i, mo in zip(reqs, impl, model):
         kind, cdir, top, fstok, files, feats, relaxed = cases[k]
@@ -636,19 +735,23 @@ def _correspond(ctx, xm, xh, work, proof_broken, failed, out):
                 relaxed_n += 1
                 same = True
         if not same:
-            # once a proposed repair (fixes/C20-*.patch) is applied, the implementation equals the repaired model
-            reps = ["X", "d", "DD"] if m in ("x", "l") else ["DD"]
-            hit = [r for r in reps if alt(r, k) == i]
-            if hit and spec_verdict(sp, ia)[0]:
-                repaired_n[hit[0]] = repaired_n.get(hit[0], 0) + 1
+            # does the implementation behave like the model with some switches toggled?
+            hit = [t for t in toggles(m) if alt(k, m, t) == i]
+            if hit:
+                t = hit[0]
+                undone = [SWITCH_FINDING[c] for c in t if c in CURRENT]
+                if not undone and spec_verdict(sp, ia)[0]:
+                    repaired_n[t] = repaired_n.get(t, 0) + 1          # a proposed repair was applied: fine
+                    continue
+                divergences.append((k, m, i, mo, "behaves like the model with the repair of %s switched off"
+                                    % ",".join(undone) if undone else ""))
                 continue
             divergences.append((k, m, i, mo, ""))
             continue
         okv, why = spec_verdict(sp, ia)
         if okv:
             continue
-        # impl == model != Spec: attribute to a known finding by flipping exactly that finding's switch in the model
-        fixed_same_mode = alt("X", k) if m in ("x", "l") else alt("DD", k)
+        # impl == model != Spec: attribute to a finding by toggling exactly that finding's switch in the model
 
         def sat(ans_text):
             a = split_answer(ans_text)
@@ -656,13 +759,11 @@ def _correspond(ctx, xm, xh, work, proof_broken, failed, out):
         if sp == "S err RootShape" and not fatal(ia) and "(" not in ia[2]:
             finding_hits["C20-F5"].append((k, m, why))        # the result has no document element at all
             continue
-        if sat(fixed_same_mode):
-            finding_hits["C20-F2"].append((k, m, why))
-        elif m in ("x", "l") and sat(alt("d", k)):
-            finding_hits["C20-F1"].append((k, m, why))
-        elif m in ("x", "l") and sat(alt("DD", k)):
-            finding_hits["C20-F1"].append((k, m, why))
-            finding_hits["C20-F2"].append((k, m, why))
+        for t in toggles(m):
+            if all(c not in CURRENT for c in t) and sat(alt(k, m, t)):
+                for c in t:
+                    finding_hits[SWITCH_FINDING[c]].append((k, m, why))
+                break
         else:
             unexplained_spec.append((k, m, i, sp, why))
 
@@ -693,7 +794,7 @@ def _correspond(ctx, xm, xh, work, proof_broken, failed, out):
             viol += 1
             if viol <= 5:
                 ctx.violation("divergence", payload(k, m, {"impl": i, "model": mo, "spec": spec[k], "why": why,
-                              "what": "implementation differs from the model and violates the Spec"}))
+                              "note": note, "what": "implementation differs from the model and violates the Spec"}))
         else:
             unexplained.append((k, m, i, mo))
     if unexplained and not viol:
@@ -710,6 +811,13 @@ def _correspond(ctx, xm, xh, work, proof_broken, failed, out):
              "C20-F2": "xml:base fix-up of an included document element that carries its own relative xml:base omits "
                        "the directory of the included file: the element's base URI (and every relative reference or "
                        "nested href below it) resolves to a different target"}
+    texts["C20-F7"] = ("whether the included document element needs an xml:base is decided by comparing the base URI of "
+                       "the xi:include element itself (moved by its own xml:base) with the included document: an include "
+                       "whose own xml:base names the target gets no fix-up and the included content takes the base URI "
+                       "of the including document")
+    texts["C20-F4"] = ("the href is appended to the directory of the base URI and opened without removing 'seg/..': a "
+                       "reference like ../x fails when the base names a directory that does not exist (xml:base), "
+                       "although it resolves to an existing file")
     texts["C20-F5"] = ("an xi:include that is the document element and is replaced by nothing (empty xi:fallback) leaves a "
                        "document without document element and no error is reported (XInclude 4.5.1 demands a fatal error)")
     for fid, hits in finding_hits.items():
